@@ -9,6 +9,9 @@ From PowHsm Require Import Proofs.C10.
 From PowHsm Require Import Gen.Src.
 From PowHsm Require Import Proofs.SrcEquivPin.
 From PowHsm Require Import Proofs.SrcLiftPin.
+From PowHsm Require Import Gen.SrcM.
+From PowHsm Require Import Proofs.SrcEquivDongleM.
+From PowHsm Require Import Proofs.SrcEquivPinM.
 Open Scope N_scope.
 
 (* device policy: 8 alphanumeric characters, at least one letter (tied to the generated character tables by closed checks) *)
@@ -33,7 +36,7 @@ Theorem C10_commit_only_after_ack :
            new_pin k b w1 = (Ok true, w2) /\
            ok = fs_next w2 /\
            Forall is_apdu n /\
-           C09.new_events w (snd (pin_change_block k w)) = (n ++ [PinFileWrite b ok])%list.
+           C09.new_events w (snd (pin_change_block k w)) = n ++ [PinFileWrite b ok].
 Proof. exact (@commit_only_after_ack). Qed.
 
 (* a refused / failed change (or failed write) leaves the PIN in use untouched and no file is successfully written *)
@@ -62,8 +65,7 @@ Theorem C10_successful_change_commits :
          let w' := snd (pin_change_block k w) in
          pin w' =
          Some {| pin_cur := p; pin_needs_change := false; pin_changing := false; pin_new := None |} /\
-         (exists n : list event,
-            Forall is_apdu n /\ C09.new_events w w' = (n ++ [PinFileWrite p true])%list).
+         (exists n : list event, Forall is_apdu n /\ C09.new_events w w' = n ++ [PinFileWrite p true]).
 Proof. exact (@successful_change_commits). Qed.
 
 (* after any change attempt the manager stops (interrupt) instead of carrying on *)
@@ -161,5 +163,20 @@ Theorem C10_source_pin_not_bytes :
   forall cls v any_pin : pv,
          py_type v <> TBytes -> src_BasePin__is_valid cls v any_pin = POk (VBool false).
 Proof. exact (@src_pin_is_valid_not_bytes). Qed.
+
+(* TIE BY TRANSLATION (device monad): new_pin of ledger/hsm2dongle.py (Ledger), as regenerated from the source text, is the model's on every world: length-prefixed PIN bytes, CHANGE_PIN, False exactly on error result 0x69A0, any other exception passed on *)
+Theorem C10_source_new_pin_is_model :
+  forall (self : pv) (pin : bytes) (w : world),
+         small_bytes pin ->
+         srcm_HSM2Dongle__new_pin self (VBytes pin) w = mres VBool (new_pin KLedger pin w).
+Proof. exact (@srcm_new_pin_ok). Qed.
+
+(* the byte-by-byte PIN transfer *)
+Theorem C10_source_send_pin_is_model :
+  forall (self : pv) (pin : bytes) (prepend : bool) (w : world),
+         small_bytes pin ->
+         srcm_HSM2Dongle___send_pin self (VBytes pin) (VBool prepend) w =
+         mres (fun _ : unit => VNone) (send_pin pin prepend w).
+Proof. exact (@srcm_send_pin_ok). Qed.
 
 Example C10_nonvacuous : True. Proof. exact I. Qed. (* object-level and history-level runs closed by vm_compute in Proofs/C10.v *)
